@@ -38,18 +38,21 @@ def strip(it, s, chars, left, right):
     if not isinstance(s, SStr):
         s = SStr(S(s))
     cls = z3.Union(*[z3.Re(c) for c in chars]) if len(chars) > 1 else z3.Re(chars)
-    from .sym import fresh_name
-    r = z3.String(fresh_name("strip"))
-    l = z3.String(fresh_name("lpad")) if left else z3.StringVal("")
-    t = z3.String(fresh_name("rpad")) if right else z3.StringVal("")
-    ex = it.ex
-    ex.assume(SBool(s.t == z3.Concat(l, r, t)))
+    # strip is a *function* of its argument: uninterpreted, with its defining facts per application
+    tag = "".join(f"{ord(c):02x}" for c in chars) + ("l" if left else "") + ("r" if right else "")
+    f = theory.ufun(f"str_strip_{tag}", z3.StringSort(), z3.StringSort())
+    fl = theory.ufun(f"str_strip_{tag}_lpad", z3.StringSort(), z3.StringSort())
+    fr = theory.ufun(f"str_strip_{tag}_rpad", z3.StringSort(), z3.StringSort())
+    r = f(s.t)
+    l = fl(s.t) if left else z3.StringVal("")
+    t = fr(s.t) if right else z3.StringVal("")
+    any_ = z3.Full(z3.ReSort(z3.StringSort()))
+    facts = [s.t == z3.Concat(l, r, t)]
     if left:
-        ex.assume(SBool(z3.InRe(l, z3.Star(cls))))
-        ex.assume(SBool(z3.Not(z3.InRe(r, z3.Concat(cls, z3.Full(z3.ReSort(z3.StringSort())))))))
+        facts += [z3.InRe(l, z3.Star(cls)), z3.Not(z3.InRe(r, z3.Concat(cls, any_)))]
     if right:
-        ex.assume(SBool(z3.InRe(t, z3.Star(cls))))
-        ex.assume(SBool(z3.Not(z3.InRe(r, z3.Concat(z3.Full(z3.ReSort(z3.StringSort())), cls)))))
+        facts += [z3.InRe(t, z3.Star(cls)), z3.Not(z3.InRe(r, z3.Concat(any_, cls)))]
+    theory._add_axiom(("strip", tag, r.get_id()), z3.And(*facts))
     return SStr(r)
 
 
@@ -80,6 +83,11 @@ def rpartition(it, s, sep):
 
 def split(it, s, sep, maxsplit):
     """s.split(sep[, maxsplit]) with a concrete non-empty separator."""
+    h = getattr(it, "split_hook", None)
+    if h is not None:
+        r = h(it, s, sep, maxsplit)
+        if r is not None:
+            return r
     if sep is None or not isinstance(sep, str) or not sep:
         raise OutOfSubset("split() on whitespace / symbolic separator")
     if not isinstance(s, SStr):
